@@ -631,6 +631,8 @@ func C06(ctx *core.Ctx) error {
 	ctx.Imports = "YLex.Keywords YLex.Model YLex.Spec Check.C06Check"
 	ctx.Rule = "L cases: one statement argument written under a random quoting style / '+' split / comment and white-space placement, loaded inside a module and read back through the public accessor; non-trivial when the text contains a character special to the lexer, has more than one part or a comment next to it. S cases: one node of a generated statement tree, all its written properties against the accessors; non-trivial when at least 3 properties were written. D cases: 3 loads of one text compared by canonical dump."
 	r := gen.New(ctx.Seed)
+	ctx.ShardMax = 120000
 	c06Lexical(ctx, r.Fork(1))
+	c06Statements(ctx, r.Fork(2))
 	return nil
 }
